@@ -25,7 +25,7 @@ import (
 )
 
 var noStop = flag.Bool("nostop", false, "do not stop after six oracle failures")
-var mode = flag.String("mode", "raw", "raw|json|pb|http|thriftbin|thriftstruct|replies")
+var mode = flag.String("mode", "raw", "raw|json|pb|http|thriftbin|thriftstruct|replies|nopool")
 
 type bufRW struct{ bytes.Buffer }
 
@@ -257,6 +257,14 @@ func genStream(r *rand.Rand, pf erpc.ProtoFunc, callName, pushName string, lim u
 		}
 		return append(append([]byte(nil), all...), f...), "thrift-compact-name"
 	}
+	if *mode != "http" && r.Intn(14) == 0 {
+		// a frame announcing size 0 at a frame boundary (alone, or behind valid frames), then more
+		z := append(append([]byte(nil), all[:len(all)*r.Intn(2)]...), 0, 0, 0, 0)
+		if r.Intn(2) == 0 {
+			z = append(z, all...)
+		}
+		return z, "zero-size"
+	}
 	switch {
 	case k == 0 || len(all) == 0:
 		return RandBytes(r, r.Intn(80)), "random"
@@ -310,6 +318,10 @@ func main() {
 	erpc.SetDefaultBodyCodec('j')
 	if *mode == "replies" {
 		runReplies(cfg)
+		return
+	}
+	if *mode == "nopool" {
+		runNoPool(cfg)
 		return
 	}
 	r := cfg.Rng
@@ -381,7 +393,14 @@ func main() {
 		var sess erpc.Session
 		done := make(chan struct{})
 		go func() { sess, _ = srv.ServeConn(sc, pf); close(done) }()
-		<-done
+		select {
+		case <-done:
+		case <-time.After(15 * time.Second):
+			st.Fail(i, "serve-blocked", "ServeConn did not return within 15 s: earlier sessions of this run still hold the goroutine pool (their handlers or disconnect paths never finished)", human)
+		}
+		if len(st.OracleFailures) > 0 && st.OracleFailures[len(st.OracleFailures)-1].Key == "serve-blocked" {
+			break
+		}
 		if sess == nil {
 			st.Fail(i, "serve-failed", "ServeConn refused an in-memory conn", human)
 			continue
